@@ -54,3 +54,55 @@ PROPS['C01'] = dict(
     assumptions=['reference arithmetic: unsigned __int128 with % and GMP mpz (cross-checked against each other)',
                  'build flags of the shipped test target (g++ -O3 -mavx2 -fopenmp, asserts live)'],
 )
+
+HARNESSES['h_lanes'] = dict(src='h_lanes.cpp')
+
+_LANE_RULE = ('rapidcheck-generated register contents: every lane gets its own (a,b) from the boundary / solved-operand pair generator of the kernel\'s scalar counterpart '
+              '(documented operand restrictions applied by construction: shifted / canonical first operand, b<=0xFFFFFFFF00000000, b<2^8, c_h<2^32, canonical b). '
+              'Oracle per lane: u128 reference (field result compared canonically; exact integer equality for 128/72-bit products; exact value <p for canonicalise). '
+              'Non-trivial: some lane reaches a mask/correction path (operand >= p, wrap in add, borrow in sub, equal high halves in the 32-bit compare, reduction wrap/borrow, raw result >= p). '
+              'distinct = distinct full register contents among non-trivial cases.')
+_LANE_CLASSES = ['lane:a>=p', 'lane:add-wrap', 'lane:b>=p', 'lane:sub-borrow', 'lane:equal-high-halves', 'lane:reduce-borrow', 'lane:reduce-wrap', 'lane:raw-result>=p', 'lane:c_l>=p', 'lane:product-128']
+
+PROPS['C02'] = dict(
+    title='AVX2 lane kernels equal the scalar field op in every lane, every input',
+    jobs=[J('h_lanes', 'fast2', 6_000_000, 800_000_000, only='c02'),
+          J('h_lanes', 'fast5', 1_000_000, 200_000_000, only='c02', tiers=['thorough'], class_prefix='avx512-build:')],
+    rule=_LANE_RULE, expected_classes=_LANE_CLASSES,
+    technique='rapidcheck property-based testing: per-lane boundary/solved-operand generators vs u128 reference oracle (differential against the scalar semantics)',
+    level_text='Generated-input search over all 16 AVX2 lane kernels with per-lane independent operands constructed to reach every mask path; exact oracle. Sampling, not proof.',
+    level_note='Trusted: u128 reference; the CPU executes AVX2 as specified. Operand assumptions are taken from the kernel comments.',
+    assumptions=['kernel operand assumptions as documented in the header comments', 'u128 reference arithmetic'],
+)
+PROPS['C11'] = dict(
+    title='AVX512 lane kernels equal the scalar field op in every lane, every input',
+    jobs=[J('h_lanes', 'fast5', 6_000_000, 800_000_000, only='c11')],
+    rule=_LANE_RULE, expected_classes=_LANE_CLASSES,
+    technique='rapidcheck property-based testing on the -D__AVX512__ build: per-lane boundary/solved-operand generators vs u128 reference oracle',
+    level_text='Generated-input search over all 13 AVX512 lane kernels on AVX512F hardware (the configuration the shipped suite never compiles); exact oracle. Sampling, not proof.',
+    level_note='Trusted: u128 reference; needs a CPU with AVX512F (otherwise the job is skipped and the run is inconclusive, never a violation).',
+    assumptions=['CPU supports AVX512F', 'kernel operand assumptions as documented (canonical second operand for _b_c, multiplier < 2^8 for _8/_72, c_h < 2^32 for 96-bit reduction)'],
+)
+_MAT_RULE = ('rapidcheck-generated 12-element states (AVX512: two interleaved states) and coefficient arrays (12/48/144) in any representation; (state element, coefficient) pairs are '
+             'solved so that lane products land, as integers, in [p,2^64) or next to 2^64-1 (raw non-canonical products, several in the same lane), plus residue-targeted and independent pairs; '
+             '8-bit variants get entries < 2^8 by construction; aligned variants get aligned arrays, the others a deliberately misaligned exact-size heap block. '
+             'Oracle: integer matrix-vector product mod p in the documented layout (u128). Non-trivial: a lane with non-canonical raw products or a non-canonical state. '
+             'distinct = distinct (kernel,state,coefficients) among non-trivial cases.')
+PROPS['C13'] = dict(
+    title='AVX2 dot/sparse/dense 12-wide matrix kernels equal the product mod p',
+    jobs=[J('h_lanes', 'fast2', 1_200_000, 150_000_000, only='c13')],
+    rule=_MAT_RULE, expected_classes=['mat:>=2-noncanonical-products-in-a-lane', 'mat:1-noncanonical-product', 'mat:noncanonical-state', 'mat:aligned-variant', 'mat:misaligned-array'],
+    technique='rapidcheck property-based testing: product-targeted state/coefficient generators vs u128 matrix-vector reference',
+    level_text='Generated-input search over the 11 AVX2 matrix kernels with operands constructed so that intermediate products and sums land in the non-canonical band; exact oracle. Sampling, not proof.',
+    level_note='Trusted: u128 reference.',
+    assumptions=['8-bit variants: all coefficients < 2^8', 'aligned variants: 32-byte aligned arrays'],
+)
+PROPS['C14'] = dict(
+    title='AVX512 dot/sparse/dense matrix kernels equal the product mod p, two states',
+    jobs=[J('h_lanes', 'fast5', 1_200_000, 150_000_000, only='c14')],
+    rule=_MAT_RULE, expected_classes=['mat:>=2-noncanonical-products-in-a-lane', 'mat:1-noncanonical-product', 'mat:noncanonical-state'],
+    technique='rapidcheck property-based testing on the -D__AVX512__ build: product-targeted generators vs u128 matrix-vector reference',
+    level_text='Generated-input search over the 7 AVX512 matrix kernels (two interleaved states) with several non-canonical raw products per lane; exact oracle. Sampling, not proof.',
+    level_note='Trusted: u128 reference; needs AVX512F hardware.',
+    assumptions=['CPU supports AVX512F', '8-bit variants: all coefficients < 2^8'],
+)
